@@ -1,5 +1,5 @@
-(* C19 adaptor: the stack machine of ParseBLOB_Recursive run over the printed text of a forest of brace trees is the
-   structural reading [sem] of that forest. *)
+(* C19 adaptor: the stack machine of ParseBLOB_Recursive (with its string state: braces inside a "quoted text" belong to
+   the outside text) run over the printed text of a forest of brace trees is the structural reading [sem] of that forest. *)
 From Coq Require Import String Ascii List Bool Arith Lia.
 From KV Require Import Lib.Str Lib.ODict Model.Vpp Model.Uml Model.UmlBlob Proofs.UmlBlobDefs.
 Import ListNotations.
@@ -58,19 +58,26 @@ Lemma bt_frame_block : forall l f0,
   bt_frame (BBlock l) (Some f0) =
   match bts_frame l (Some frame0) with
   | None => None
-  | Some fr => match finalize fr with Some v => Some (add_child f0 v) | None => None end
+  | Some fr => match finalize fr with Some v => Some (add_child (resume f0) v) | None => None end
   end.
 Proof. intros l f0. cbn [bt_frame]. rewrite go_frame. reflexivity. Qed.
 
-Lemma go_ok : forall l : list bt,
-  (fix go (l : list bt) : bool := match l with [] => true | x :: r => bt_ok x && go r end) l = bts_ok l.
+Lemma go_scan : forall (l : list bt) (acc : option qst),
+  (fix go (l : list bt) (acc : option qst) : option qst :=
+     match l with [] => acc | x :: r => go r (bt_scan x acc) end) l acc = bts_scan l acc.
 Proof.
-  induction l as [|x r IHr]; [reflexivity|].
-  cbn [bts_ok]. rewrite <- IHr. reflexivity.
+  induction l as [|x r IHr]; intros acc; [reflexivity|].
+  cbn [bts_scan]. exact (IHr (bt_scan x acc)).
 Qed.
 
-Lemma bt_ok_block : forall l, bt_ok (BBlock l) = bts_ok l.
-Proof. intros l. cbn [bt_ok]. rewrite go_ok. reflexivity. Qed.
+Lemma bt_scan_block : forall l q,
+  bt_scan (BBlock l) (Some q) =
+  if q_in q then None
+  else match bts_scan l (Some qst0) with
+       | Some q' => if q_in q' then None else Some qst0
+       | None => None
+       end.
+Proof. intros l q. cbn [bt_scan]. rewrite go_scan. reflexivity. Qed.
 
 (* ---------------------------------------------------------------- None propagation *)
 
@@ -83,67 +90,156 @@ Proof.
   cbn [bts_frame]. rewrite bt_frame_None. exact IHr.
 Qed.
 
+Lemma bt_scan_None : forall t, bt_scan t None = None.
+Proof. intros [s|l]; reflexivity. Qed.
+
+Lemma bts_scan_None : forall l, bts_scan l None = None.
+Proof.
+  induction l as [|x r IHr]; [reflexivity|].
+  cbn [bts_scan]. rewrite bt_scan_None. exact IHr.
+Qed.
+
+(* ---------------------------------------------------------------- the string state *)
+
+Lemma scan_app : forall a b q, scan q (a ++ b) = scan (scan q a) b.
+Proof.
+  induction a as [|c a IHa]; intros b q; cbn [append scan]; [reflexivity|].
+  apply IHa.
+Qed.
+
+Lemma free_of_app : forall bad a b q,
+  free_of bad q (a ++ b) = free_of bad q a && free_of bad (scan q a) b.
+Proof.
+  intros bad. induction a as [|c a IHa]; intros b q; cbn [append free_of scan]; [reflexivity|].
+  cbv zeta. rewrite IHa. rewrite andb_assoc. reflexivity.
+Qed.
+
+Lemma feed_st : forall s f, f_st (feed s f) = scan (f_st f) s.
+Proof.
+  induction s as [|c s IHs]; intros f; cbn [feed scan]; [reflexivity|].
+  rewrite IHs. reflexivity.
+Qed.
+
+Lemma feed_children : forall s f, f_children (feed s f) = f_children f.
+Proof.
+  induction s as [|c s IHs]; intros f; cbn [feed]; [reflexivity|].
+  rewrite IHs. reflexivity.
+Qed.
+
+Lemma feed_out : forall s f, f_out (feed s f) = srev_onto s (f_out f).
+Proof.
+  induction s as [|c s IHs]; intros f; cbn [feed srev_onto]; [reflexivity|].
+  rewrite IHs. reflexivity.
+Qed.
+
+(* an opening brace outside a quoted text leaves the scanner in its initial state *)
+Lemma qstep_open : forall q, q_in q = false -> qstep q "{" = qst0.
+Proof. intros [i e] H. cbn in H. subst i. reflexivity. Qed.
+
+(* a closing brace does not enter a quoted text *)
+Lemma qstep_close_in : forall q, q_in (qstep q "}") = q_in q.
+Proof. intros [i e]. reflexivity. Qed.
+
 (* ---------------------------------------------------------------- (a) texts *)
 
 Lemma parse_run_text : forall s rest cur st,
-  nobrace s = true -> parse_run (s ++ rest) cur st = parse_run rest (feed s cur) st.
+  free_of ["{"; "}"]%char (f_st cur) s = true -> parse_run (s ++ rest) cur st = parse_run rest (feed s cur) st.
 Proof.
   induction s as [|c s IHs]; intros rest cur st H.
   - reflexivity.
-  - cbn [nobrace] in H.
+  - cbn [free_of] in H. cbv zeta in H.
     apply andb_true_iff in H. destruct H as [H Hs].
-    apply andb_true_iff in H. destruct H as [Ho Hc].
-    apply negb_true_iff in Ho. apply negb_true_iff in Hc.
-    cbn [append parse_run feed]. rewrite Ho, Hc.
-    apply IHs. exact Hs.
+    cbn [append parse_run feed]. cbv zeta.
+    destruct (q_in (qstep (f_st cur) c)) eqn:Hin.
+    + apply IHs. exact Hs.
+    + cbn [orb existsb] in H. rewrite orb_false_r in H.
+      apply negb_true_iff in H. apply orb_false_iff in H. destruct H as [Ho Hc].
+      rewrite Ho, Hc.
+      apply IHs. exact Hs.
 Qed.
 
 (* ---------------------------------------------------------------- (b), (c) trees and forests *)
 
 Definition tree_spec (t : bt) : Prop :=
-  bt_ok t = true -> forall rest cur st,
-    parse_run (bt_print t ++ rest) cur st =
-    match bt_frame t (Some cur) with Some cur' => parse_run rest cur' st | None => None end.
+  forall cur q', bt_scan t (Some (f_st cur)) = Some q' ->
+    (forall rest st,
+       parse_run (bt_print t ++ rest) cur st =
+       match bt_frame t (Some cur) with Some cur' => parse_run rest cur' st | None => None end)
+    /\ (forall cur', bt_frame t (Some cur) = Some cur' -> f_st cur' = q').
 
 Lemma parse_run_list_of : forall l, Forall tree_spec l ->
-  bts_ok l = true -> forall rest cur st,
-    parse_run (bts_print l ++ rest) cur st =
-    match bts_frame l (Some cur) with Some cur' => parse_run rest cur' st | None => None end.
+  forall cur q', bts_scan l (Some (f_st cur)) = Some q' ->
+    (forall rest st,
+       parse_run (bts_print l ++ rest) cur st =
+       match bts_frame l (Some cur) with Some cur' => parse_run rest cur' st | None => None end)
+    /\ (forall cur', bts_frame l (Some cur) = Some cur' -> f_st cur' = q').
 Proof.
-  induction 1 as [|x r Hx Hr IHr]; intros Hok rest cur st.
-  - reflexivity.
-  - cbn [bts_ok] in Hok. apply andb_true_iff in Hok. destruct Hok as [Hokx Hokr].
-    cbn [bts_print bts_frame]. rewrite sapp_assoc.
-    rewrite (Hx Hokx).
-    destruct (bt_frame x (Some cur)) as [cur'|].
-    + apply IHr. exact Hokr.
-    + rewrite bts_frame_None. reflexivity.
+  induction 1 as [|x r Hx Hr IHr]; intros cur q' Hok.
+  - cbn [bts_scan] in Hok. injection Hok as Hok. split.
+    + intros rest st. reflexivity.
+    + intros cur' E. cbn [bts_frame] in E. injection E as E. subst cur'. exact Hok.
+  - cbn [bts_scan] in Hok.
+    destruct (bt_scan x (Some (f_st cur))) as [q1|] eqn:Hx1;
+      [|rewrite bts_scan_None in Hok; discriminate Hok].
+    destruct (Hx cur q1 Hx1) as [Hrun Hst].
+    cbn [bts_print bts_frame].
+    destruct (bt_frame x (Some cur)) as [cur1|].
+    + specialize (Hst cur1 eq_refl). rewrite <- Hst in Hok.
+      destruct (IHr cur1 q' Hok) as [Hrun' Hst'].
+      split.
+      * intros rest st. rewrite sapp_assoc, Hrun. apply Hrun'.
+      * exact Hst'.
+    + split.
+      * intros rest st. rewrite sapp_assoc, Hrun. rewrite bts_frame_None. reflexivity.
+      * intros cur' E. rewrite bts_frame_None in E. discriminate E.
 Qed.
 
 Lemma parse_run_tree : forall t, tree_spec t.
 Proof.
-  induction t as [s|l Hl] using bt_ind2; unfold tree_spec; intros Hok rest cur st.
-  - cbn [bt_ok] in Hok. cbn [bt_print bt_frame].
-    apply parse_run_text. exact Hok.
-  - rewrite bt_ok_block in Hok.
-    rewrite bt_print_block, bt_frame_block.
-    change ("{" ++ bts_print l ++ "}") with (String "{" (bts_print l ++ "}")).
-    cbn [append]. rewrite sapp_assoc.
-    cbn [parse_run].
-    change (Ascii.eqb "{" "{") with true. cbv iota.
-    rewrite (parse_run_list_of l Hl Hok).
-    destruct (bts_frame l (Some frame0)) as [fr|]; [|reflexivity].
-    change ("}" ++ rest) with (String "}" rest).
-    cbn [parse_run].
-    change (Ascii.eqb "}" "{") with false.
-    change (Ascii.eqb "}" "}") with true. cbv iota.
-    unfold bind.
-    destruct (finalize fr) as [v|]; reflexivity.
+  induction t as [s|l Hl] using bt_ind2; unfold tree_spec; intros cur q' Hok.
+  - cbn [bt_scan] in Hok.
+    destruct (free_of ["{"; "}"]%char (f_st cur) s) eqn:Hfree; [|discriminate Hok].
+    injection Hok as Hok. split.
+    + intros rest st. cbn [bt_print bt_frame]. apply parse_run_text. exact Hfree.
+    + intros cur' E. cbn [bt_frame] in E. injection E as E. subst cur'.
+      rewrite feed_st. exact Hok.
+  - rewrite bt_scan_block in Hok.
+    destruct (q_in (f_st cur)) eqn:Hq; [discriminate Hok|].
+    destruct (bts_scan l (Some qst0)) as [qi|] eqn:Hinner; [|discriminate Hok].
+    destruct (q_in qi) eqn:Hqi; [discriminate Hok|].
+    injection Hok as Hok. subst q'.
+    destruct (parse_run_list_of l Hl frame0 qi Hinner) as [Hrun Hst].
+    rewrite bt_frame_block.
+    split.
+    + intros rest st.
+      rewrite bt_print_block.
+      change ("{" ++ bts_print l ++ "}") with (String "{" (bts_print l ++ "}")).
+      cbn [append]. rewrite sapp_assoc.
+      cbn [parse_run]. cbv zeta.
+      rewrite (qstep_open _ Hq).
+      change (q_in qst0) with false.
+      change (Ascii.eqb "{" "{") with true. cbv iota.
+      rewrite Hrun.
+      destruct (bts_frame l (Some frame0)) as [fr|]; [|reflexivity].
+      specialize (Hst fr eq_refl).
+      change ("}" ++ rest) with (String "}" rest).
+      cbn [parse_run]. cbv zeta.
+      rewrite qstep_close_in, Hst, Hqi.
+      change (Ascii.eqb "}" "{") with false.
+      change (Ascii.eqb "}" "}") with true. cbv iota.
+      unfold bind.
+      destruct (finalize fr) as [v|]; reflexivity.
+    + intros cur' E.
+      destruct (bts_frame l (Some frame0)) as [fr|]; [|discriminate E].
+      destruct (finalize fr) as [v|]; [|discriminate E].
+      injection E as E. subst cur'. reflexivity.
 Qed.
 
-Lemma parse_run_list : forall l, bts_ok l = true -> forall rest cur st,
-  parse_run (bts_print l ++ rest) cur st =
-  match bts_frame l (Some cur) with Some cur' => parse_run rest cur' st | None => None end.
+Lemma parse_run_list : forall l cur q', bts_scan l (Some (f_st cur)) = Some q' ->
+  (forall rest st,
+     parse_run (bts_print l ++ rest) cur st =
+     match bts_frame l (Some cur) with Some cur' => parse_run rest cur' st | None => None end)
+  /\ (forall cur', bts_frame l (Some cur) = Some cur' -> f_st cur' = q').
 Proof.
   intros l. apply parse_run_list_of.
   apply Forall_forall. intros t _. apply parse_run_tree.
@@ -153,9 +249,11 @@ Qed.
 
 Lemma parse_blob_sem : forall l : list bt, bts_ok l = true -> parse_blob (bts_print l) = sem l.
 Proof.
-  intros l Hok. unfold parse_blob, sem.
+  intros l Hok. unfold bts_ok in Hok. unfold parse_blob, sem.
+  destruct (bts_scan l (Some qst0)) as [q'|] eqn:Hscan; [|discriminate Hok].
+  destruct (parse_run_list l frame0 q' Hscan) as [Hrun _].
   rewrite <- (sapp_nil_r (bts_print l)).
-  rewrite (parse_run_list l Hok).
+  rewrite Hrun.
   destruct (bts_frame l (Some frame0)) as [fr|]; reflexivity.
 Qed.
 
